@@ -651,8 +651,10 @@ class Taint:
         return v
 
     # ---- guards ---------------------------------------------------------------
-    def ancestors(self, b, l):
-        key = (b["id"], l)
+    def ancestors(self, b, l, through_access=False):
+        """through_access: a value fetched with get()/len()/first()/last() also depends on the index / collection (used for loop exit
+        conditions only: for guards it would make `refs.get(id)` a comparison of everything `id` was computed from)"""
+        key = (b["id"], l, through_access)
         if key in self._anc:
             return self._anc[key]
         seen = set()
@@ -681,7 +683,7 @@ class Taint:
                 elif df[0] == "call":
                     t = df[2]
                     seg = last_seg(F.callee_name(t))
-                    if seg in ("min", "max", "checked_add", "checked_sub", "checked_mul", "saturating_sub", "saturating_add", "wrapping_add", "wrapping_sub", "into", "from", "try_from",
+                    if (through_access and seg in ("len", "get", "first", "last")) or seg in ("min", "max", "checked_add", "checked_sub", "checked_mul", "saturating_sub", "saturating_add", "wrapping_add", "wrapping_sub", "into", "from", "try_from",
                                "try_into", "clone", "unwrap", "branch", "ok_or", "ok_or_else", "cloned", "copied", "deref", "abs", "unwrap_or", "map_err", "expect", "ok", "from_residual"):
                         for a in t["args"]:
                             if a[0] in ("copy", "move"):
